@@ -42,6 +42,14 @@ type Violation struct {
 	Fixture   string         `json:"fixture,omitempty"`
 	Path      []string       `json:"path"`
 	Detail    map[string]any `json:"detail,omitempty"`
+	// Shard / NShards / Tier name the exploration that reported it.  ReplayMode "exploration-order"
+	// marks a violation that a fresh replay of its path alone does not reproduce but a re-run of that
+	// (deterministic) exploration does: the breach depends on something a DISCARDED branch - which is
+	// what a rejected transaction is - left behind outside the stores (keeper memory, globals).
+	Shard      int    `json:"shard,omitempty"`
+	NShards    int    `json:"nshards,omitempty"`
+	Tier       string `json:"tier,omitempty"`
+	ReplayMode string `json:"replay_mode,omitempty"`
 }
 
 // Result is what a driver (or one shard of it) reports.
@@ -481,11 +489,39 @@ func RunSharded(prop, tier string, n int, f ShardFunc) *Result {
 				res.HarnessErr = fmt.Sprintf("worker %d/%d: %v", i, n, err)
 				return
 			}
+			for k := range r.Violations {
+				if r.Violations[k].NShards == 0 {
+					r.Violations[k].Shard, r.Violations[k].NShards, r.Violations[k].Tier = i, n, tier
+				}
+			}
 			res.Merge(&r)
 		}(i)
 	}
 	wg.Wait()
 	return res
+}
+
+// RerunShard runs one shard of an exploration again in a fresh process and returns its violations.
+func RerunShard(prop, tier string, shard, n int) ([]Violation, error) {
+	tmp := filepath.Join(Root(), "build", "tmp")
+	_ = os.MkdirAll(tmp, 0o755)
+	out := filepath.Join(tmp, fmt.Sprintf("%s-%s-%d-rerun-%d-%d.json", prop, tier, os.Getpid(), shard, n))
+	cmd := exec.Command(os.Args[0], "worker", prop, tier, strconv.Itoa(shard), strconv.Itoa(n), out)
+	cmd.Stderr = os.Stderr
+	cmd.Env = append(os.Environ(), "GOMAXPROCS=2")
+	if err := cmd.Run(); err != nil {
+		return nil, err
+	}
+	defer os.Remove(out)
+	bz, err := os.ReadFile(out)
+	if err != nil {
+		return nil, err
+	}
+	var r Result
+	if err := json.Unmarshal(bz, &r); err != nil {
+		return nil, err
+	}
+	return r.Violations, nil
 }
 
 // WriteWorkerResult is called by the worker sub-command.
